@@ -12,7 +12,7 @@ from pyvc.verify import Raised
 
 DOCUMENTED_ORDER = [DFXPReader, MicroDVDReader, WebVTTReader, SAMIReader, SRTReader, SCCReader]
 
-ALPHA = "01\n{}->W<tE"
+ALPHA = "01\n{}->W<tE:/"        # (markers of every format, plus what a namespace prefix or a closing tag is made of)
 POOL = None
 
 
@@ -247,6 +247,27 @@ def bounded_first_frame(ctx, b):
                     sample={"writer": Wr.__name__, "spans": spans, "cue_within_the_first_microdvd_frame": Wr is MicroDVDWriter})
 
 
+def bounded_writer_options(ctx, b):
+    """documents written with the language options set to a code the set does not have (DFXP force=, WebVTT lang= is
+    excluded: it selects nothing by its contract): still the writer's format, and its reader reads the captions"""
+    from pycaption.dfxp.extras import SinglePositioningDFXPWriter, LegacyDFXPWriter
+    cs = CaptionSet({"en-US": CaptionList([Caption((2 * j + 1) * 10 ** 6, (2 * j + 2) * 10 ** 6, [T(f"cue {j}")]) for j in range(3)])})
+    for Wr in (DFXPWriter, SinglePositioningDFXPWriter, LegacyDFXPWriter):
+        for force in ("en", "fr", "EN-us", "en-US"):
+            def one(Wr=Wr, force=force):
+                doc = Wr().write(cs, force=force)
+                got = detect_format(doc)
+                if got is not DFXPReader:
+                    return False, {"detected_as": repr(got)}
+                try:
+                    back = DFXPReader().read(doc)
+                except Exception as e:
+                    return False, {"writer": Wr.__name__, "force": force, "its_reader_raises": repr(e)[:200], "doc": doc[-300:]}
+                n = sum(len(back.get_captions(l)) for l in back.get_languages())
+                return n == 3, {"writer": Wr.__name__, "force": force, "cues_read": n}
+            b.guard(("force", Wr.__name__, force), one, sample={"writer": Wr.__name__, "force": force})
+
+
 def bounded_early_cues(ctx, b):
     """cues that start sooner after time zero than their own text takes to transmit (SCC sends a caption ahead of its
     start time): the document is still one its reader reads"""
@@ -277,6 +298,9 @@ def run(ctx):
                 "format and read back with every cue", lambda b: bounded_long_documents(ctx, b))
     ctx.bounded("first_frame", "caption sets whose first cue lies within the first 40 ms, through the five text writers: "
                 "detected as the writer's format and read back", lambda b: bounded_first_frame(ctx, b))
+    ctx.bounded("writer_options", "the three DFXP writers with force= set to a code the set does not have (a prefix, another "
+                "language, another letter case) and to the one it has: detected as DFXP and read back with every cue",
+                lambda b: bounded_writer_options(ctx, b))
     ctx.bounded("early_cues", "caption sets of one to three long two-row cues that start within their own SCC transmission time "
                 "of zero, through the six writers: detected as the writer's format, read back by that reader with every cue",
                 lambda b: bounded_early_cues(ctx, b))
